@@ -190,3 +190,16 @@ Definition imeta_case (c : (mval * mval * mval * mval * mval) * list iop * (mval
   let x := run_ops (im_new u n ct w h) ops in
   mval_eqb (a_unit x) u' && mval_eqb (a_num x) n' && mval_eqb (a_ctype x) ct' && mval_eqb (a_width x) w'
   && mval_eqb (a_height x) h' && items_eqb (d_items x) its.
+
+(* ---- EPUB chapter numbers: (children of <spine> as (tag, idref), item ids that produce a chapter, (item id, unit number) of the result) *)
+From S2T Require Import C04.ModelEpub.
+Fixpoint units_eqb (a b : list (str * Z)) : bool :=
+  match a, b with
+  | [], [] => true
+  | (i, k) :: a', (j, l) :: b' => str_eqb i j && Z.eqb k l && units_eqb a' b'
+  | _, _ => false
+  end.
+Definition epub_units_case (opf_itemref : str) (c : list spine_child * list str * list (str * Z)) : bool :=
+  let '(children, prod, want) := c in
+  units_eqb (epub_units (fun i => mem_str i prod)
+               (parse_spine opf_itemref (fun t => endswith t (s "}itemref") || str_eqb t (s "itemref")) children)) want.
